@@ -81,7 +81,7 @@ pub struct Profile {
 
 use Cat::*;
 
-const ALL_FAM: &[usize] = &[0, 1, 2, 3, 4, 5, 6, 7, 8, 9, 10, 11];
+const ALL_FAM: &[usize] = &[0, 1, 2, 3, 4, 5, 6, 7, 8, 9, 10, 11, 12, 13, 14];
 
 pub const PROFILES: &[Profile] = &[
     Profile {
@@ -110,7 +110,7 @@ pub const PROFILES: &[Profile] = &[
         fault_pct: 0,
         fault_kinds: &[],
         max_len: 4,
-        families: &[0, 1, 2, 4, 7, 11],
+        families: &[0, 1, 2, 4, 7, 11, 12],
     },
     Profile {
         name: "C03",
@@ -863,8 +863,8 @@ pub fn generate(prof: &Profile, seed: u64, cfg_a: bool) -> Program {
     let family = prof.families[rng.below(prof.families.len())];
     let _ = NFAMILIES;
     let nthreads = weighted(&mut rng, prof.threads);
-    let copy_family = matches!(family, 7 | 8 | 9 | 10);
-    let same_pq = matches!(family, 1 | 4 | 7);
+    let copy_family = matches!(family, 7 | 8 | 9 | 10 | 13);
+    let same_pq = matches!(family, 1 | 4 | 7 | 14);
     let zst_e = family == 5;
     // swarm: disable a random subset of the categories (never Drop / CreateSized)
     let mut weights: Vec<(Cat, u32)> = prof.weights.to_vec();
